@@ -192,11 +192,12 @@ Example repaired_retention_witness :
       mkMap [(2%N, [0%nat])] [1%nat]).
 Proof. vm_compute. reflexivity. Qed.
 
-(* the first and the last representable instants: the last group ends at MaxNanoTime+1 *)
+(* the first and the last representable instants: the first group starts at MinInt64 (clamped),
+   the last group ends at MaxNanoTime+1 *)
 Example extremes_routed :
   map_shards 0 (mkRP 0 604800000000000 1) (mkM [] 0 0 1)
     [mkP w_cpu c08_max_nano_time; mkP w_cpu c08_min_nano_time] =
-  Ok (mkM [mkG 2 (-9223459200000000000) (-9222854400000000000) false None [2]%N;
+  Ok (mkM [mkG 2 min_int64 (-9222854400000000000) false None [2]%N;
            mkG 1 9222940800000000000 9223372036854775807 false None [1]%N] 2 2 1,
       mkMap [(1%N, [0%nat]); (2%N, [1%nat])] []).
 Proof. vm_compute. reflexivity. Qed.
